@@ -13,6 +13,7 @@ import (
 	"go.etcd.io/bbolt"
 	"pgregory.net/rapid"
 
+	"verifharness/pbt"
 	"verifharness/stats"
 )
 
@@ -208,7 +209,12 @@ func TestC14StructuralFieldPolicy(t *testing.T) {
 	}
 }
 
-func TestC14RecordRoundTrip(t *testing.T) {
+func TestC14RecordRoundTrip(t *testing.T) { propC14RecordRoundTrip(t) }
+
+// FuzzC14RecordRoundTrip drives the same property body with Go's coverage-guided fuzzer (thorough tier).
+func FuzzC14RecordRoundTrip(f *testing.F) { propC14RecordRoundTrip(f) }
+
+func propC14RecordRoundTrip(t testing.TB) {
 	col := stats.Get("C14.roundtrip")
 	dir := fastTempDir("c14")
 	defer os.RemoveAll(dir)
@@ -218,7 +224,7 @@ func TestC14RecordRoundTrip(t *testing.T) {
 	if err != nil {
 		t.Fatal(err)
 	}
-	rapid.Check(t, func(t *rapid.T) {
+	pbt.Run(t, func(t *rapid.T) {
 		sm, opt, how := genRecord(t)
 		want, _ := json.Marshal(sm)
 		if err := store.UpdateData(sm); err != nil {
